@@ -507,8 +507,20 @@ class World:
             out, _ = p.communicate(timeout=WALL)
             rc = p.returncode
         except subprocess.TimeoutExpired:
-            p.kill()
-            out, _ = p.communicate()
+            # ask the Go runtime for a goroutine dump (SIGQUIT) before killing: a hang that does not repeat is otherwise lost
+            try:
+                os.kill(p.pid, signal.SIGQUIT)
+                out, _ = p.communicate(timeout=5)
+            except (subprocess.TimeoutExpired, OSError):
+                for pid in session_pids(p.pid) + [p.pid]:
+                    try:
+                        os.kill(pid, signal.SIGKILL)
+                    except OSError:
+                        pass
+                try:
+                    out, _ = p.communicate(timeout=10)
+                except subprocess.TimeoutExpired:
+                    out = ""
             rc = 124
         t_exit = time.time()
         wall = t_exit - t0
@@ -738,7 +750,7 @@ def check_build(w, world, b, anc, ids, succeeded_ever, need_run, disturbed, inte
     # ---- C04: termination, crash --------------------------------------------------------------------------------------
     if rc == 124:
         V("C04", "build-hang", f"grog build did not return within {WALL} s" + (" after " + world["interrupt"]["signal"] if interrupted else ""))
-        summ["out_tail"] = out[-600:]
+        summ["out_tail"] = out[-20000:]
         return summ
     crash = next((l for l in out.splitlines() if l.startswith(("fatal error:", "panic:"))), None)
     if crash or rc not in (0, 1) and not (interrupted and rc < 0):
@@ -1050,6 +1062,8 @@ def run_worlds(ctx, nworlds, focus, threads=4, interrupt_all=False):
             r2 = run_world(ctx, f"world-{focus}-{k}-again", world)
             sig2 = {(p, s) for p, s, _ in r2["bad"]}
             r["unconfirmed"] = [(p, s) for p, s, _ in r["bad"] if (p, s) not in sig2]
+            if r["unconfirmed"]:
+                r["unconfirmed_detail"] = [b["out_tail"] for b in r["builds"] if b.get("out_tail")][:1]
             r["bad"] = [x for x in r["bad"] if (x[0], x[1]) in sig2]
         return r
     results = []
@@ -1090,6 +1104,7 @@ def run_worlds(ctx, nworlds, focus, threads=4, interrupt_all=False):
            "feature_pairs_covered": len(pairs), "feature_pairs_top": dict(sorted(pairs.items(), key=lambda kv: -kv[1])[:40]),
            "feature_pairs_once": sum(1 for v in pairs.values() if v == 1),
            "unconfirmed_oracle_failures": [(r["seed"], r["unconfirmed"]) for r in results if r.get("unconfirmed")],
+           "unconfirmed_oracle_failure_output": [(r["seed"], r["unconfirmed_detail"]) for r in results if r.get("unconfirmed_detail")][:3],
            "fail_fast_post_failure_starts": ff_stat,
            "max_wall_s": max([b["wall"] for r in results for b in r["builds"]] or [0])}
     return results, cov
